@@ -14,9 +14,13 @@ CheckLex(r) ==
     ELSE IF r.readback = "" THEN "argument-lost"
     ELSE "argument-altered"
 
-\* {"chk":"order","want":[names],"got":[names]}  sibling definitions keep their textual order
+\* {"chk":"order","what":kind,"want":[names],"got":[names]}  sibling definitions - and the statements of
+\* one kind on a definition (revisions, musts, if-features, enums, bits, key and unique components,
+\* leaf-list defaults) - keep their textual order
 CheckOrder(r) == IF r.res.panic THEN "panic" ELSE IF r.res.err THEN "legal-module-rejected"
-                 ELSE IF r.got = r.want THEN "ok" ELSE "sibling-order-changed"
+                 ELSE IF r.got = r.want THEN "ok"
+                 ELSE IF r.what = "siblings" THEN "sibling-order-changed"
+                 ELSE "statement-order-changed"
 
 \* {"chk":"determinism","dumps":[canonical dump per load]}
 CheckDet(r) == IF \A i \in DOMAIN r.dumps : r.dumps[i] = r.dumps[1] THEN "ok" ELSE "repeated-load-differs"
